@@ -893,12 +893,112 @@ static void magStat(const std::vector<double>& a, long extra) {
   scaleStat("flt_A_exp2", (long)e + extra);
 }
 
+// ------------------------------------------------------------------------------------------------
+// round five: the build WITH DUNE_FMatrix_WITH_CHECKING (second translation unit cxx_c02_ck.cc, scalar type
+// std::complex<long double> which nothing else here instantiates).  By design that build rejects operands whose
+// determinant is below FMatrixPrecision<>::absolute_limit() (1e-80) in magnitude -- and nothing else.
+//   ck <solve|invert> <fm|dm> <n in 1..3> <k> [small integers a_ij, |a_ij| <= 9] [b_i]      operand = A * 2^k, b as given
+// admissible: det A != 0 (exact, integers) and -180 <= k*n <= 600, i.e. |det(A 2^k)| between 2^-180 (far above the
+// limit) and 2^613; every such operand is well-conditioned (cond <= a few hundred), so the call must return and the
+// result must pass the residual test.  impl: ck-returns | ck-throws | ck-other.
+// ------------------------------------------------------------------------------------------------
+namespace c02ck {
+using CK = std::complex<long double>;
+int run(const std::string& op, const std::string& rep, int n, const std::vector<CK>& a, const std::vector<CK>& b,
+        std::vector<CK>& out);
+}
+static long detSmall(const std::vector<long>& a, int n) {
+  if (n == 1) return a[0];
+  if (n == 2) return a[0] * a[3] - a[1] * a[2];
+  return a[0] * (a[4] * a[8] - a[5] * a[7]) - a[1] * (a[3] * a[8] - a[5] * a[6]) + a[2] * (a[3] * a[7] - a[4] * a[6]);
+}
+static bool smallIntTok(const std::string& t, long bound, long& v) {
+  if (t.empty()) return false;
+  size_t p = t[0] == '-' ? 1 : 0;
+  if (p == t.size() || t.size() - p > 5 || t.find_first_not_of("0123456789", p) != std::string::npos) return false;
+  v = std::atol(t.c_str());
+  return v >= -bound && v <= bound;
+}
+static Result execCk(const std::vector<std::string>& w) {
+  using CK = c02ck::CK;
+  Result bad;
+  bad.impl = "bad-op";
+  bad.oracle = "FAIL harness cannot parse this op line";
+  const std::string& op = w[1];
+  const std::string& rep = w[2];
+  if (op != "solve" && op != "invert") return bad;
+  if (rep != "fm" && rep != "dm") return bad;
+  if ((op == "solve") != (w.size() == 7)) return bad;
+  long n = 0, k = 0;
+  if (!smallIntTok(w[3], 3, n) || n < 1) return bad;
+  if (!smallIntTok(w[4], 600, k)) return bad;
+  std::vector<long> a = parseList(w[5]), b;
+  if (op == "solve") b = parseList(w[6]);
+  if ((long)a.size() != n * n || (op == "solve" && (long)b.size() != n)) return bad;
+  for (long x : a) if (x < -9 || x > 9) return bad;
+  for (long x : b) if (x < -9 || x > 9) return bad;
+  if (detSmall(a, (int)n) == 0 || k * n < -180 || k * n > 600) return bad;
+  stat("field_ck");
+  stat("op_ck_" + op);
+  stat(k * n >= 270 ? "ck_det_above_1e80" : k * n <= -60 ? "ck_det_tiny_but_above_limit" : "ck_det_moderate");
+  std::vector<CK> A, B, out;
+  for (long x : a) A.push_back(CK(std::ldexp((long double)x, (int)k), 0.0L));
+  for (long x : b) B.push_back(CK((long double)x, 0.0L));
+  int code = c02ck::run(op, rep, (int)n, A, B, out);
+  Result res;
+  res.impl = code == 0 ? "ck-returns" : code == 1 ? "ck-throws" : "ck-other";
+  if (code == 1) { res.oracle = "FAIL FMatrixError for a well-conditioned matrix whose determinant is far above the absolute limit (build with DUNE_FMatrix_WITH_CHECKING)"; return res; }
+  if (code != 0) { res.oracle = "FAIL unexpected exception / not executable (build with DUNE_FMatrix_WITH_CHECKING)"; return res; }
+  auto mag = [](const CK& z) { return std::abs(z); };
+  long double na = 0, no = 0, nb = 0, worst = 0;
+  for (auto& z : A) na = std::max(na, mag(z));
+  for (auto& z : out) no = std::max(no, mag(z));
+  for (auto& z : B) nb = std::max(nb, mag(z));
+  if (op == "solve") {
+    for (int i = 0; i < n; ++i) {
+      CK s(0);
+      for (int j = 0; j < n; ++j) s += A[i * n + j] * out[j];
+      worst = std::max(worst, mag(s - B[i]));
+    }
+    if (!(worst <= 1e-13L * (n * na * no + nb))) res.oracle = "FAIL residual of solve too large (build with DUNE_FMatrix_WITH_CHECKING)";
+  } else {
+    for (int i = 0; i < n; ++i)
+      for (int j = 0; j < n; ++j) {
+        CK s(0), t(0);
+        for (int l = 0; l < n; ++l) { s += A[i * n + l] * out[l * n + j]; t += out[i * n + l] * A[l * n + j]; }
+        CK e = i == j ? CK(1) : CK(0);
+        worst = std::max(worst, std::max(mag(s - e), mag(t - e)));
+      }
+    if (!(worst <= 1e-13L * n * (1 + na * no))) res.oracle = "FAIL A*B or B*A deviates from I (build with DUNE_FMatrix_WITH_CHECKING)";
+  }
+  return res;
+}
+static std::string genCk(Rng& g) {
+  int n = 1 + (int)g.below(3);
+  std::string op = g.coin() ? "solve" : "invert";
+  std::string rep = g.coin() ? "fm" : "dm";
+  std::vector<long> a(n * n), b(n);
+  do {
+    for (auto& x : a) x = g.range(-4, 4);
+    if (g.coin(1, 3)) for (int i = 0; i < n; ++i) a[i * n + i] += g.coin() ? 5 : -5;
+  } while (detSmall(a, n) == 0);
+  for (auto& x : b) x = g.range(-9, 9);
+  static const std::vector<long> targets = {-180, -120, -60, -10, 0, 0, 10, 100, 200, 260, 264, 267, 270, 280, 300, 400, 600};
+  long k = g.pick(targets) / n;
+  stat("gen_ck");
+  std::ostringstream os;
+  os << "ck " << op << " " << rep << " " << n << " " << k << " " << listStr(a);
+  if (op == "solve") os << " " << listStr(b);
+  return os.str();
+}
+
 static Result execLine(const std::string& line) {
   Result bad;
   bad.impl = "bad-op";
   bad.oracle = "FAIL harness cannot parse this op line";
   auto w = words(line);
   if (w.size() != 6 && w.size() != 7) return bad;
+  if (w[0] == "ck") return execCk(w);
   FieldTok ft;
   if (!parseFieldTok(w[0], ft)) return bad;
   const std::string& field = ft.base;
@@ -1224,6 +1324,7 @@ static std::string gen(Rng& g, long idx, const Args& args) {
     std::string mode = args.gets("mode", "");
     if (mode == "enum01" || mode == "enumpm") return genEnum(idx, args);
   }
+  if (g.coin(1, 50)) return genCk(g);      // round five: the build with DUNE_FMatrix_WITH_CHECKING (closed forms only)
   std::ostringstream os;
   int fsel = (int)g.below(100);
   std::string field = fsel < 70 ? "gf" : fsel < 80 ? "f64" : fsel < 87 ? "c64" : fsel < 95 ? "ld" : "v64";
